@@ -79,7 +79,7 @@ POOLS = {
     "NULL": dict(cls="null"),
     "SINGLE": dict(cls="single"),
 }
-BODIES = ("coci", "coci2", "inval", "delfairy", "detach", "softinv", "dispose")
+BODIES = ("coci", "coci2", "inval", "delfairy", "detach", "softinv", "dispose", "dropdetached")
 
 
 class Harness:
@@ -119,6 +119,17 @@ class Harness:
             p = pool.SingletonThreadPool(mk, pool_size=5)
         ctx = dict(p=p, ledger=ledger, holders={}, viol=[], timeouts=0, cfg=cfg, conn_threads={}, thread_conn={})
         ctx["mainheld"] = [p.connect() for _ in range(self.held)]
+        # one detached-but-not-yet-dropped checkout per "dropdetached" body: its pool entry is back in
+        # the pool and may be handed to someone else before the old proxy is garbage collected
+        ctx["pending_detached"] = []
+        for b in self.body_names:
+            if b == "dropdetached":
+                f = p.connect()
+                f.dbapi_connection.detached = True
+                f.dbapi_connection.dropped = True
+                f.detach()
+                ctx["pending_detached"].append(f)
+                f = None
         ctx["cap"] = (cfg["size"] + cfg["ov"]) if cfg["cls"] == "queue" and cfg["ov"] >= 0 else None
         return ctx
 
@@ -186,6 +197,11 @@ class Harness:
     def _mk_body(self, name):
         def body(ctx, tid):
             reps = 2 if name == "coci2" else 1
+            if name == "dropdetached":
+                # the last reference to a detached proxy goes away without close(): its (stale) weakref
+                # callback must not touch the pool entry, which may belong to a new checkout by now
+                ctx["pending_detached"].pop()
+                return
             if name == "dispose":
                 # Pool.dispose() closes idle connections only; the pool stays usable
                 ctx["p"].dispose()
@@ -228,7 +244,7 @@ class Harness:
         openc = sum(1 for c in ctx["ledger"] if c.open and not c.detached)
         if not ex.aborted:
             for c in ctx["ledger"]:
-                if c.detached and c.open:
+                if c.detached and c.open and not getattr(c, "dropped", False):
                     v.append("detach: detached connection %r not closed by its owner's close()" % c)
             if cls == "queue":
                 if p.checkedout() != live:
